@@ -1,5 +1,6 @@
 import PngVerif.Driver.C14
 import PngVerif.Driver.C01
+import PngVerif.Driver.Framing
 /-!
 `pngmodel`: line-protocol driver.  One case per input line, one canonical answer per output line,
 `bad-op` for anything that does not parse (never a default).  The functions called here are the
@@ -11,6 +12,7 @@ def answer (line : String) : String :=
   match line.trimAscii.toString.splitOn " " with
   | "c14" :: args => c14 args
   | "c01" :: args => c01 args
+  | "frm" :: args => frm args
   | _ => "bad-op"
 
 partial def loop (hin hout : IO.FS.Stream) : IO Unit := do
